@@ -250,6 +250,8 @@ func (cs *ContractSet) parseFile(pkgPath, file string, f *ast.File) {
 				cur.NoPanic = true
 			case "nooverflow":
 				cur.NoOverflow = true
+			case "nomaprange":
+				cur.NoMapRange = true
 			case "terminates":
 				cur.Terminates = true
 			case "trusted":
